@@ -2537,7 +2537,8 @@ class SeriesHE(Series):
 
     def __hash__(self) -> int:
         if not hasattr(self, '_hash'):
-            self._hash = hash(tuple(self.index.values))
+            # NOTE: iterate labels rather than values, as the values of an IndexHierarchy are rows of a 2D array and not hashable
+            self._hash = hash(tuple(self.index))
         return self._hash
 
     def to_series(self) -> Series:
